@@ -264,6 +264,23 @@ func ruleFormatPadding(w *World, r *RuleResult) {
 		}
 	}
 	if len(bufs) == 0 || len(signs) == 0 || len(pads) == 0 {
+		// Format split into helpers that hand the sign, the text and the padding on in a struct: the values
+		// written are then not the ones measured in one function's SSA; that shape is not decided
+		split := false
+		for _, g := range w.closureFuncs(f) {
+			if g == f {
+				continue
+			}
+			for _, c := range callsIn(g) {
+				if cc := c.Common(); cc.IsInvoke() && cc.Method.Name() == "Write" {
+					split = true
+				}
+			}
+		}
+		if split {
+			r.ok(key, w.pos(f.Pos()), "Format writes through helpers of its own; the correspondence between the lengths counted and the bytes written is not decided for this shape", false)
+			return
+		}
 		r.anchorMissing("(*Decimal).Format: Write / writeMultiple structure")
 		return
 	}
